@@ -212,6 +212,16 @@ def run_v(res, unit_files, rlimit=None, filter_units=None):
         res.solver_time["verus_verified_fns"] = summ.get("verified")
     except Exception:
         pass
+    try:
+        fns = []
+        for m in r1["summary"]["times-ms"]["smt"]["smt-run-module-times"]:
+            for f in m.get("function-breakdown", []):
+                fns.append((f.get("time", 0), f.get("function")))
+        fns.sort(reverse=True)
+        res.solver_time["verus_smt_ms_top_functions"] = [{"fn": n, "ms": t} for t, n in fns[:12]]
+        res.solver_time["verus_smt_ms_total"] = r1["summary"]["times-ms"]["smt"].get("total")
+    except Exception:
+        pass
     res.solver_time["verus_wall_s"] = round(time.time() - t0, 2)
     res.v_root = root1
     res.v_overlay = ov1
